@@ -37,6 +37,8 @@ pub fn configs(thorough: bool) -> Vec<McConfig> {
     // seconds, amplitudes of 1e9 – the columns of H differ by 9 orders of magnitude
     v.push(McConfig { name: "decay+offset/ns-lifetime/w=1/sd", fns: vec![(Kind::Exp, vec![0]), (Kind::One, vec![])], truth: vec![2e-9], coef: vec![3.0, 0.5], n: 30, xmax: 1e-8, base: 1e-3, slope: 2.0, wmode: 1, built: true });
     v.push(McConfig { name: "decay+offset/amplitude1e9/unweighted", fns: vec![(Kind::Exp, vec![0]), (Kind::One, vec![])], truth: vec![2.5], coef: vec![4e9, 1e9], n: 30, xmax: 10.0, base: 2e6, slope: 0.0, wmode: 0, built: false });
+    // equal standard deviations passed as (uniform) weights exactly 1/sd: chi2 must still average 1
+    v.push(McConfig { name: "decay+offset/homo/w=1/sd", fns: vec![(Kind::Exp, vec![0]), (Kind::One, vec![])], truth: vec![2.5], coef: vec![4.0, 1.0], n: 30, xmax: 10.0, base: 2e-2, slope: 0.0, wmode: 1, built: true });
     if thorough {
         v.push(McConfig { name: "gauss+decay+offset/homo/unweighted", fns: vec![(Kind::Gauss, vec![0, 1]), (Kind::Exp, vec![2]), (Kind::One, vec![])], truth: vec![4.0, 1.0, 3.0], coef: vec![2.0, 3.0, 1.0], n: 50, xmax: 10.0, base: 1e-3, slope: 0.0, wmode: 0, built: false });
         v.push(McConfig { name: "decay/small-dof/w=1/sd", fns: vec![(Kind::Exp, vec![0])], truth: vec![2.0], coef: vec![3.0], n: 5, xmax: 6.0, base: 1e-3, slope: 1.0, wmode: 1, built: true });
